@@ -166,6 +166,25 @@ Theorem channel_list_roperator_scalar_law : forall B o la s st,
        (fun r => ret (Lst r)) st.
 Proof. exact cl_rbinop_scalar_law. Qed.
 
+(* EVERY other binary operator method / builtins function (round roundup trunc min max atan2 pow
+   ring1.. clip2 ...; base = its BinaryOpUGen class): the same wrap-and-zip loop over
+   scalar_binop_named, and on a number paired with a signal -- in EITHER order, the reflected
+   dispatch included -- exactly one unit (name, left operand, right operand) *)
+Theorem channel_list_named_operator_law : forall base la lb st, la <> [] -> lb <> [] ->
+  cl_binop_named base (Lst la) (Lst lb) st =
+  bind (loop (fun i => match nth_error la (i mod length la), nth_error lb (i mod length lb) with
+                       | Some x, Some y => list_binop (scalar_binop_named base) x y (elem_kind x y)
+                       | _, _ => raise IndexError
+                       end) 0 (Nat.max (length la) (length lb)))
+       (fun r => ret (Lst r)) st.
+Proof. exact cl_binop_named_law. Qed.
+Theorem named_operator_number_and_signal : forall base z u c st,
+  scalar_binop_named base (Scalar (K z)) (Scalar (U u c)) st =
+  new1_rated base 1 binop_ratef [Scalar (K z); Scalar (U u c)] st /\
+  scalar_binop_named base (Scalar (U u c)) (Scalar (K z)) st =
+  new1_rated base 1 binop_ratef [Scalar (U u c); Scalar (K z)] st.
+Proof. exact scalar_binop_named_reflected. Qed.
+
 (* _multichannel_perform, for EVERY selector (leaf = the element's own method, arbitrary) and
    every non-empty receiver: the result is the channel list, as long as the longest of receiver
    and list arguments, whose i-th element is the method of receiver element i mod |self| applied
@@ -396,6 +415,13 @@ Example audio_input_example :
     ORes (Lst [u 4; u 5; u 6])
          (pre ++ [mkUnit (ar 10) [u 1]; mkUnit (ar 9) [k 0];
                   mkUnit (ar 11) [u 0; k 2; k 3]; mkUnit (ar 11) [u 2; k 2; k 3]; mkUnit (ar 11) [u 3; k 2; k 3]]).
+Proof. vm_compute. reflexivity. Qed.
+(* ChannelList([5, u0]).round([u1, 2, u1]): three 'round' units, the number stays the LEFT operand *)
+Example named_operator_example :
+  let pre := [mkUnit (ar 1) [k 100; k 0]; mkUnit (kr 1) [k 101; k 0]] in
+  observe (cl_binop_named 12 (Lst [k 5; u 0]) (Lst [u 1; k 2; u 1])) pre =
+    ORes (Lst [u 2; u 3; u 4])
+         (pre ++ [mkUnit (kr 12) [k 5; u 1]; mkUnit (ar 12) [u 0; k 2]; mkUnit (kr 12) [k 5; u 1]]).
 Proof. vm_compute. reflexivity. Qed.
 Example out_example_count : nlists (Lst [Lst [u 0; k 0]; Lst [k 0; u 1; k 7]]) = 3.
 Proof. reflexivity. Qed.
